@@ -28,10 +28,12 @@ Proof. exact dead_target_pack_skipped. Qed.
 Print Assumptions C05_dead_target_skipped.
 
 (* (4) FULL STATEMENT of the second sentence (flush = sequential application in thread order / program order):
-   Refine.refinement_statement.  It is NOT proved in general here: it is evaluated on the concrete scripts below
-   inside Coq, and on every generated script by the tier-A/tier-B correspondence runs.  The excluded patterns are
-   the open known findings (a pack that assigns and removes the same component; program order lost inside a pack
-   where dependencies are involved). *)
+   Refine.refinement_statement.  It is evaluated on the concrete scripts below inside Coq and on every generated script
+   by the tier-A/tier-B correspondence runs; it is PROVED, for all scripts over the alphabet with lock / unlock without
+   dependencies and shared components on which the model run does not end in Err, in part 3 at the end of this file
+   (C05_flush_faithful, C05_locked_refines_on).  The excluded patterns are the open known findings (a pack that assigns
+   and removes the same component: the model run ends in Err NullDeref, see C05_pack_assign_then_remove_refuted and
+   C05_ok_hypothesis_needed; program order lost inside a pack where dependencies are involved: no dependencies here). *)
 Definition C05_flush_faithful_statement := refinement_statement.
 
 Definition cis3 : list cinfo := [pal_info 0 0; pal_info 2 0; pal_info 3 0].
@@ -203,3 +205,212 @@ Proof.
   split; [vm_compute; reflexivity|]. split; [reflexivity|]. split; [reflexivity|]. split; [reflexivity|].
   split; [vm_compute; reflexivity|]. repeat split; vm_compute; reflexivity.
 Qed.
+
+(* ------------------------------------------------------------------------------------------------------------ *)
+(* Deferred mode, part 3: THE REFINEMENT over the alphabet with lock / unlock (proofs/SkelMoveRem.v, ManagerLInv.v,
+   ManagerPack.v, ManagerFlush.v, ManagerLocked.v, ManagerLockedMain.v).
+
+   Alphabet (ManagerLockedMain.alphaL_b): lock, unlock (nested to any depth, also an unlock without lock); while locked
+   create (both entry points, any mask, no shared ids), destroy, destroyNow, assign (typed / untyped, default / value),
+   removeComponent (typed / untyped) from ANY thread id (a thread id beyond the buffer count is a contract violation in
+   the specification and Err in the model), on handles alive or not, issued or not (the null handle), created in the
+   same locked section or not; not locked: the same operations (C02), destroy + update; at any time a write through
+   getComponent<T>().  No dependencies, no shared components, component ids below 128, cis_ok as in C02.
+
+   Relation (ManagerLocked.LR cis s hs x): the C02 invariant (structure G of the Skeleton on the projection, with the
+   recorded creations pending; well-formed archetypes; the VALUE clause: the cells at the slot of every member are the
+   values the specification gives that entity) + the buffers: every recorded command of the model is the command of the
+   specification at the same place of the same thread's buffer (crel: handle = the k-th issued handle, and the
+   temporary of an assign command holds the assigned value, the default value for a default assignment), commands
+   through the null handle being recorded by the model only (brel) + marked set, lock depth, id counter. *)
+Require Import Coq.micromega.Lia Coq.Arith.Arith.
+From Mustache Require Import SkelSpec.
+From Mustache.proofs Require Import ManagerBasics ManagerMoves ManagerInv ManagerLInv ManagerPack ManagerFlush ManagerLocked ManagerLockedMain.
+
+(* (9) the temporaries carry the assigned values: the last loop of applyCommandPack (wr_step = its body) leaves in the
+   cell of every component at the entity's slot the temporary of the LAST assign command of that component in the pack
+   (last_asg), and the cell it had before where the pack assigns nothing; cells_of: nothing else of the state moves
+   (other slots, other archetypes, locations, slots: untouched; only the log grows) *)
+Theorem C05_assigned_values_arrive : forall tid h ai a idx tl s a0,
+  nth_error (archs s) ai = Some a0 -> am_mask a0 = am_mask a ->
+  length (am_cols a0) = length (mitems (am_mask a)) -> nth_error (tmps s) tid = Some tl ->
+  forall p st a_st s',
+  Forall asg_ok p -> cells_of s ai idx a0 st a_st ->
+  fold_res (wr_step tid h ai a idx) p st = Ok s' ->
+  exists a', cells_of s ai idx a0 s' a' /\
+    forall c, c < MASK_BITS -> acell a' c idx = match last_asg tl p c with Some w => w | None => acell a_st c idx end.
+Proof. exact wr_fold. Qed.
+Print Assumptions C05_assigned_values_arrive.
+
+(* (10) THE PACK LEMMA: applying one pack p (a non-empty run of commands on one handle h of thread tid, recorded as the
+   specification commands xp) from a state of the flush invariant FInv reaches the state the specification reaches by
+   applying the commands of xp ONE AT A TIME (fold_left x_cmd), whatever the pack does: creation of its entity (then
+   destroyed at once, or inserted with the final mask and the assigned values), an entity that is not alive any more
+   (skipped), destroyNow in the middle (the rest means nothing), a changed component set (one externalMove, then the
+   assigned values), an unchanged one (values written in place).  rem' = the creations still pending after the pack.
+   Hypotheses: the pack's commands stay inside the contract (no x_viol: e.g. no assign of a component the entity has at
+   that moment) and applyCommandPack does not end in Err (it does for assign-then-remove of one component). *)
+Theorem C05_pack_is_sequential : forall cis tid tl s hs x h p xp rem' s',
+  FInv cis s hs x (xrem xp ++ rem') -> cis_ok cis -> within (length hs) -> nth_error (tmps s) tid = Some tl ->
+  p <> [] -> allh h p -> brel cis hs tl p xp -> mcf p ->
+  x_viol (fold_left x_cmd xp x) = x_viol x ->
+  apply_pack tid s p = Ok s' ->
+  FInv cis s' hs (fold_left x_cmd xp x) rem' /\ fr4 s' = fr4 s.
+Proof. exact F_pack. Qed.
+Print Assumptions C05_pack_is_sequential.
+
+(* (11) THE FLUSH: from related states, the flush of the recorded buffers (lock depth set to 0, as the outermost unlock
+   does) reaches the state the specification's x_flush reaches: every buffer's commands one at a time in program order,
+   buffers in thread-id order; afterwards the two states are related again (all buffers empty, nothing pending) *)
+Theorem C05_flush_faithful : forall cis s hs x s',
+  LR cis s hs x -> cis_ok cis -> within (length hs) -> x_viol (x_flush (xw_lock x 0)) = x_viol x ->
+  flush (set_lock s 0) = Ok s' -> LR cis s' hs (x_flush (xw_lock x 0)).
+Proof. exact flush_faithful. Qed.
+Print Assumptions C05_flush_faithful.
+
+(* the relation holds along every script of the alphabet *)
+Theorem C05_locked_run_related : forall typed n cis ops s hs,
+  cis_ok cis -> forallb (alphaL_b cis) ops = true ->
+  mrun typed n cis ops = Ok (s, hs) -> x_viol (xrun n cis ops) = 0 -> within (length hs) ->
+  LR cis s hs (xrun n cis ops).
+Proof. exact locked_run_related. Qed.
+Print Assumptions C05_locked_run_related.
+
+(* (12) the statement of Refine.v: for every script over the alphabet that stays inside the contract and on which the
+   model does not end in Err, with fewer than 16 777 000 handles issued (as in C01 / C02), what queries observe of
+   the Manager is the abstract world *)
+Theorem C05_locked_refines_on : forall typed n cis ops s hs,
+  cis_ok cis -> forallb (alphaL_b cis) ops = true ->
+  mrun typed n cis ops = Ok (s, hs) -> x_viol (xrun n cis ops) = 0 -> within (length hs) ->
+  refines_on typed n cis ops = true.
+Proof. exact locked_refines_on. Qed.
+Print Assumptions C05_locked_refines_on.
+
+(* handle by handle (also in the middle of a locked section: the recorded changes are not observable, first sentence) *)
+Theorem C05_locked_refinement : forall typed n cis ops s hs,
+  cis_ok cis -> forallb (alphaL_b cis) ops = true ->
+  mrun typed n cis ops = Ok (s, hs) -> x_viol (xrun n cis ops) = 0 -> within (length hs) ->
+  length hs = x_count (xrun n cis ops) /\
+  forall k,
+    match find_ent (xrun n cis ops) k with
+    | Some e => exists e', abs_ent s k (nth k hs null_handle) = Some e' /\ ent_match e e' = true
+    | None => abs_ent s k (nth k hs null_handle) = None
+    end.
+Proof. exact locked_refinement. Qed.
+Print Assumptions C05_locked_refinement.
+
+(* the alphabet of C02 is included *)
+Theorem C05_alphabet_extends_C02 : forall cis o, ManagerMain.alpha_b cis o = true -> alphaL_b cis o = true.
+Proof. exact alpha_b_alphaL. Qed.
+Print Assumptions C05_alphabet_extends_C02.
+
+Example C05_alphabet_extends_C02_example : ManagerMain.alpha_b cis3 (XoAssign 1 0 1 (Some 5%Z)) = true.
+Proof. reflexivity. Qed.
+
+(* ---- the hypotheses are satisfiable ---- *)
+Lemma cis3_ok : cis_ok cis3.
+Proof. unfold cis_ok, cis3. repeat constructor; simpl; intros; congruence. Qed.
+
+(* script_a (above): two worker threads and the owner, nested locks, commands on entities created in the same locked
+   section, on an entity destroyed by another command, a create + destroyNow pack, assign after the inner unlock *)
+Example C05_locked_nonvacuous :
+  cis_ok cis3 /\ forallb (alphaL_b cis3) script_a = true /\ x_viol (xrun 16 cis3 script_a) = 0 /\
+  (forall typed, exists s hs, mrun typed 16 cis3 script_a = Ok (s, hs) /\ within (length hs) /\
+                              map (is_valid s) hs = [false; false; true; false]) /\
+  map (fun e => (e_k e, e_comps e)) (x_ents (xrun 16 cis3 script_a)) = [(2, [(0, Some 9%Z); (2, Some 1003%Z)])].
+Proof.
+  split; [exact cis3_ok|]. split; [vm_compute; reflexivity|]. split; [vm_compute; reflexivity|]. split.
+  - intros typed. destruct typed; eexists; eexists; (split; [vm_compute; reflexivity|]); split; vm_compute; reflexivity.
+  - vm_compute. reflexivity.
+Qed.
+
+(* the theorem applied (not evaluated) to script_a *)
+Example C05_locked_refines_on_script_a : forall typed, refines_on typed 16 cis3 script_a = true.
+Proof.
+  intros typed. destruct C05_locked_nonvacuous as (Hok & Ha & Hv & Hrun & _). destruct (Hrun typed) as (s & hs & Hr & Hb & _).
+  exact (C05_locked_refines_on typed 16 cis3 script_a s hs Hok Ha Hr Hv Hb).
+Qed.
+
+(* a reachable locked state with three recorded packs in two buffers: related (by the theorem), and its flush succeeds *)
+Definition script_l : list xop :=
+  [XoCreate 0 1 [] false; XoCreate 0 3 [] false; XoLock;
+   XoAssign 1 0 1 (Some 5%Z); XoRemove 1 0 0 true; XoCreate 2 4 [] false; XoAssign 2 2 0 None; XoDestroyNow 1 1]%N.
+
+Definition st_l : mst := match mrun true 16 cis3 script_l with Ok (s, _) => s | Err _ => init 16 cis3 end.
+Definition hs_l : list handle := match mrun true 16 cis3 script_l with Ok (_, hs) => hs | Err _ => [] end.
+Lemma run_l : mrun true 16 cis3 script_l = Ok (st_l, hs_l).
+Proof. vm_compute. reflexivity. Qed.
+
+Example C05_flush_nonvacuous :
+  mrun true 16 cis3 script_l = Ok (st_l, hs_l) /\ LR cis3 st_l hs_l (xrun 16 cis3 script_l) /\ within (length hs_l) /\
+  x_lock (xrun 16 cis3 script_l) = 1 /\
+  x_viol (x_flush (xw_lock (xrun 16 cis3 script_l) 0)) = x_viol (xrun 16 cis3 script_l) /\
+  (exists s', flush (set_lock st_l 0) = Ok s') /\
+  bufs st_l = [[]; [AAssign (0, 0) 1 0; ARemove (0, 0) 0; ADestroyNow (1, 0)]; [ACreate (2, 0) true 4 si_null; AAssign (2, 0) 0 0];
+            []; []; []; []; []; []; []; []; []; []; []; []; []]%N /\
+  tmps st_l = [[]; [Some 5%Z]; [None]; []; []; []; []; []; []; []; []; []; []; []; []; []].
+Proof.
+  assert (Hb : within (length hs_l)) by (vm_compute; reflexivity).
+  assert (Hv : x_viol (xrun 16 cis3 script_l) = 0) by (vm_compute; reflexivity).
+  split; [exact run_l|]. split; [apply (C05_locked_run_related true 16 cis3 script_l st_l hs_l cis3_ok); [vm_compute; reflexivity|exact run_l|exact Hv|exact Hb]|].
+  split; [exact Hb|]. split; [vm_compute; reflexivity|]. split; [vm_compute; reflexivity|]. split; [vm_compute; eauto|].
+  split; vm_compute; reflexivity.
+Qed.
+
+(* the pack lemma and the value lemma on the first pack of thread 1 in that state: assign component 1 := 5 to entity #0 and
+   remove its component 0; the entity moves from archetype {0} to archetype {1} *)
+Definition state_l : mst := set_lock st_l 0.
+Definition pack_l : list acmd := [AAssign (0, 0)%N 1 0; ARemove (0, 0)%N 0].
+Definition xpack_l : list xcmd := [XAssign 0 1 (Some 5%Z); XRemove 0 0].
+
+Example C05_pack_nonvacuous :
+  cis_ok cis3 /\ within (length hs_l) /\ nth_error (tmps state_l) 1 = Some [Some 5%Z] /\
+  pack_l <> [] /\ allh (0, 0)%N pack_l /\ brel cis3 hs_l [Some 5%Z] pack_l xpack_l /\ mcf pack_l /\
+  x_viol (fold_left x_cmd xpack_l (xw_lock (xrun 16 cis3 script_l) 0)) = x_viol (xw_lock (xrun 16 cis3 script_l) 0) /\
+  (exists s', apply_pack 1 state_l pack_l = Ok s') /\
+  (* the invariant, for the whole remaining contents of the buffers *)
+  FInv cis3 state_l hs_l (xw_lock (xrun 16 cis3 script_l) 0) (xrem (concat (x_bufs (xrun 16 cis3 script_l)))) /\
+  xrem (concat (x_bufs (xrun 16 cis3 script_l))) = [SCreate 2 4%N].
+Proof.
+  destruct C05_flush_nonvacuous as (Hr & HR & Hb & _).
+  split; [exact cis3_ok|]. split; [exact Hb|]. split; [vm_compute; reflexivity|]. split; [discriminate|].
+  split; [repeat constructor|]. split.
+  - apply br_cons; [vm_compute; repeat split; lia|]. apply br_cons; [vm_compute; repeat split; lia|]. constructor.
+  - split.
+    + intros b1 h ha m sh b2 E. destruct b1 as [|c1 [|c2 [|c3 b1]]]; discriminate.
+    + split; [vm_compute; reflexivity|]. split; [vm_compute; eauto|]. split; [|vm_compute; reflexivity].
+      apply LR_FInv. exact HR.
+Qed.
+
+(* the write loop on the archetype {1} (index 2) the entity has moved to: slot 0 receives the value 5 of temporary 0 *)
+Example C05_values_nonvacuous :
+  exists s5 a5 s6, nth_error (archs s5) 2 = Some a5 /\ am_mask a5 = 2%N /\ length (am_cols a5) = length (mitems (am_mask a5)) /\
+    nth_error (tmps s5) 1 = Some [Some 5%Z] /\ Forall asg_ok pack_l /\
+    fold_res (wr_step 1 (0, 0)%N 2 a5 0) pack_l s5 = Ok s6 /\ last_asg [Some 5%Z] pack_l 1 = Some (Some 5%Z) /\
+    exists a6, nth_error (archs s6) 2 = Some a6 /\ acell a6 1 0 = Some 5%Z.
+Proof.
+  set (s5 := match (do r <- get_arch state_l 2%N si_null; external_move (fst r) (snd r) (0, 0)%N 0 0 2%N) with Ok st => st | Err _ => state_l end).
+  set (a5 := nth 2 (archs s5) (new_arch 0%N si_null 0)).
+  assert (H6 : exists s6, fold_res (wr_step 1 (0, 0)%N 2 a5 0) pack_l s5 = Ok s6) by (vm_compute; eauto).
+  destruct H6 as (s6 & H6). exists s5, a5, s6.
+  assert (Ha5 : nth_error (archs s5) 2 = Some a5) by (vm_compute; reflexivity).
+  assert (Hm5 : am_mask a5 = 2%N) by (vm_compute; reflexivity).
+  assert (Hc5 : length (am_cols a5) = length (mitems (am_mask a5))) by (vm_compute; reflexivity).
+  assert (Ht5 : nth_error (tmps s5) 1 = Some [Some 5%Z]) by (vm_compute; reflexivity).
+  assert (Hp : Forall asg_ok pack_l) by (repeat constructor).
+  repeat (split; [first [assumption|vm_compute; reflexivity]|]).
+  destruct (C05_assigned_values_arrive 1 (0, 0)%N 2 a5 0 [Some 5%Z] s5 a5 Ha5 eq_refl Hc5 Ht5 pack_l s5 a5 s6 Hp (cells_of_refl _ _ _ _ Ha5) H6) as (a6 & Hc6 & Hv6).
+  exists a6. split; [exact (cells_of_nth _ _ _ _ _ _ Ha5 Hc6)|]. rewrite (Hv6 1); [reflexivity|vm_compute; lia].
+Qed.
+
+(* ---- why "the model run does not end in Err" is a hypothesis: the open finding ---- *)
+(* assign + remove of one component in one pack: every other hypothesis of C05_locked_refines_on holds (alphabet,
+   cis_ok, inside the contract, two handles issued) and the conclusion fails, because unlock ends in Err NullDeref
+   (applyCommandPack move-constructs the temporary into a component the final archetype does not have) *)
+Definition script_x : list xop := [XoCreate 0 1 [] false; XoLock; XoAssign 0 0 1 (Some 5%Z); XoRemove 0 0 1 true; XoUnlock]%N.
+Example C05_ok_hypothesis_needed :
+  cis_ok cis3 /\ forallb (alphaL_b cis3) script_x = true /\ x_viol (xrun 16 cis3 script_x) = 0 /\
+  mrun true 16 cis3 script_x = Err NullDeref /\ refines_on true 16 cis3 script_x = false /\
+  (* the same pack followed by a second assignment of the component is fine: the last assignment wins *)
+  refines_on true 16 cis3 (removelast script_x ++ [XoAssign 0 0 1 (Some 6%Z); XoUnlock]) = true.
+Proof. split; [exact cis3_ok|]. repeat split; vm_compute; reflexivity. Qed.
